@@ -33,6 +33,10 @@ DECIDED = [
     "C20.5 step table: every published step is defined; state tools pass their own operation; create/collect/clean restore the parameters",
     "C20.6 the tools' exit code is the verdict of the runner",
     "C20.8 an exception that ends a worker's traversal is not swallowed in run_workers",
+    "C20.9 no manual step writes into config['param_dict'] (the parameters shared by the steps of a chain) or an alias of it",
+    'C20.7z a job result entry is rewritten to an acceptable status only where the status read is acceptable already',
+    'C20.1u the lookup of a step by its name is contained like the step itself (an unknown step fails the chain without ending it)',
+    "C20.5n command line arguments are read from config['param_dict'] with a default (all are optional)",
 ]
 NOT_DECIDED = ["executions actually observed at run time"]
 MIN_INSTANCES = 12
